@@ -21,12 +21,12 @@ func main() {
 	if thorough {
 		n = 1500
 	}
-	vlib.ExecConformance(c, "C01", bins, vs, rand.New(rand.NewSource(vlib.Seed())), n, vlib.ExecMode{Faults: true, Sentinel: true, Devs: []vlib.DevStep{{Config: "GqlExecTraceDev.cfg", Key: vlib.LeafElemKey}}, DirFaults: true, Corpus: append(append(vlib.MergeCorpus("C01"), vlib.StressCorpus("C01", 24)...), vlib.SkipIncludeCorpus("C01")...),
+	vlib.ExecConformance(c, "C01", bins, vs, rand.New(rand.NewSource(vlib.Seed())), n, vlib.ExecMode{Faults: true, Rogue: true, Sentinel: true, Devs: []vlib.DevStep{{Config: "GqlExecTraceDev.cfg", Key: vlib.LeafElemKey}}, DirFaults: true, Corpus: append(append(vlib.MergeCorpus("C01"), vlib.StressCorpus("C01", 24)...), vlib.SkipIncludeCorpus("C01")...),
 		// every 4th scenario also over the real HTTP transports: the payloads on the wire must be the executor's
 		Transports: []string{"tp:post", "tp:sse", "tp:mixed"}, TransportEvery: 4})
 	// subscriptions: every event of the stream is completed like a query result of the field
 	vlib.ExecConformance(c, "C01s", bins, vs, rand.New(rand.NewSource(vlib.Seed()+1)), n/4,
-		vlib.ExecMode{Faults: true, Sentinel: true, Devs: []vlib.DevStep{{Config: "GqlSubTraceDev.cfg", Key: vlib.LeafElemKey}}, DirFaults: true, Subs: true, PlansPer: 3,
+		vlib.ExecMode{Faults: true, Rogue: true, Sentinel: true, Devs: []vlib.DevStep{{Config: "GqlSubTraceDev.cfg", Key: vlib.LeafElemKey}}, DirFaults: true, Subs: true, PlansPer: 3,
 			Module: "GqlSubTrace", Config: "GqlSubTrace.cfg", Lines: vlib.SubTraceLines,
 			// subscriptions over server-sent events: one `next` event per response
 			Transports: []string{"tp:sse"}, TransportEvery: 3})
